@@ -539,6 +539,17 @@ impl<'s, const M: usize> Exec<'s, M> {
             self.violate("C04", "misaligned-for-min-align", facts, format!("addr%{}={} size {} align {}", M, addr % M, size, align));
             return false;
         }
+        if let Some(ua) = self.script.uniform {
+            // C10's exactness premise: same alignment, size a multiple of it (checked here for every
+            // block, so that a script may have a non-uniform past before a reset)
+            let slot = self.next_slot.unwrap_or(size);
+            if (size == 0 && align > ua) || (size != 0 && (align != ua || slot % ua != 0)) {
+                if self.uniform_ok {
+                    self.stats.hit("uniform_premise_broken_until_reset");
+                }
+                self.uniform_ok = false;
+            }
+        }
         if size == 0 {
             self.stats.hit("zero_sized_block");
             if self.held.is_empty() {
